@@ -72,14 +72,26 @@ def main():
             print("demo does not fail with the change"); return 1
         os.remove(demo_dst)
         if not skip_suite:
+            stable = set(json.load(open("/root/.vp/BASELINE.json")).get("stable_pass", []))
+            suite_env = {k: v for k, v in env.items() if k != "SG_TEST_LOG_LEVEL"}  # some repo tests assert on log output
             for pkg in touched:
-                rc, out, t = sh(["go", "test", "-vet=off", "-count=1", "-timeout", "45m", "./" + pkg + "/"], wt, env, timeout=3600)
-                print("existing suite %s with change: rc=%d (%.0fs)" % (pkg, rc, t))
-                result["suite_" + pkg] = {"rc": rc, "wall_s": round(t)}
-                if rc != 0:
-                    fails = [l for l in out.splitlines() if l.startswith("--- FAIL") or l.startswith("FAIL") or "panic:" in l][:20]
-                    print("\n".join(fails))
-                    result["suite_" + pkg]["fails"] = fails
+                rc, out, t = sh(["go", "test", "-json", "-vet=off", "-count=1", "-timeout", "45m", "./" + pkg + "/"], wt, suite_env, timeout=3600)
+                failed = set()
+                for line in out.splitlines():
+                    try:
+                        ev = json.loads(line)
+                    except Exception:
+                        continue
+                    if ev.get("Action") == "fail" and ev.get("Test"):
+                        failed.add("%s::%s" % (ev.get("Package"), ev["Test"]))
+                regress = sorted(f for f in failed if f in stable)
+                print("existing suite %s with change: rc=%d (%.0fs) failed=%d of which in stable baseline=%d" % (pkg, rc, t, len(failed), len(regress)))
+                result["suite_" + pkg] = {"rc": rc, "wall_s": round(t), "failed_not_in_stable_baseline": sorted(failed - set(regress))[:20], "failed_stable": regress[:20]}
+                if regress:
+                    print("\n".join(regress[:20]))
+                    return 1
+                if rc != 0 and not failed:
+                    print(out[-2000:])
                     return 1
         det = {}
         for c in checks:
